@@ -37,7 +37,7 @@ theorem uh_nowait (l : List (Nat × Nat)) (st : Server.State) (b : Server.Batche
 
 /-- draining an idle server half with some new blocks queued: they go to nobody -/
 theorem server_drain_idle (sv : Server.State) (seq : Nat) (obs : Nat → Option Nat)
-    (ht : sv.tasks = []) (hr : sv.runq = []) (he : sv.evq = [])
+    (_ht : sv.tasks = []) (hr : sv.runq = []) (he : sv.evq = [])
     (hw : ∀ k : Nat, sv.waiting[k]? = none) :
     Beetswap.Server.drain sv seq obs = ({ sv with outq := [] }, seq, []) := by
   rw [Server.drain_eq]
@@ -45,13 +45,12 @@ theorem server_drain_idle (sv : Server.State) (seq : Nat) (obs : Nat → Option 
   rw [Server.updateHandlers_eq]
   simp only
   rw [uh_nowait _ _ _ (by simpa using hw)]
+  simp
 
 /-- the model's test "the outputs contain a `send`" -/
 theorem any_send_eq (outs : List Out) :
     outs.any (fun o => match o with | .send .. => true | _ => false) = outs.any isSend := by
   congr 1
-  funext o
-  cases o <;> rfl
 
 /-- `Node.step` of `a` for `drain`, with the idle server half. -/
 theorem nodeA_drain (a : Node.State) (h : SrvIdle a.server) :
@@ -99,5 +98,122 @@ theorem ginv_grun (x : GSys) (ops : List Beetswap.Client.Op) (h : GInv x) : GInv
   | cons op ops ih =>
     simp only [grun]
     exact ih _ (ClientView.ginv_step x op h)
+
+/-! ### `absorbA` -/
+
+theorem absorbA_a (outs : List Out) (s : State) : (absorbA s outs).a = s.a := by
+  unfold absorbA
+  induction outs generalizing s with
+  | nil => rfl
+  | cons o outs ih =>
+    simp only [List.foldl_cons]
+    rw [ih]
+    cases o <;> rfl
+
+theorem absorbA_b (outs : List Out) (s : State) :
+    (absorbA s outs).b = s.b ∧ (absorbA s outs).storeB = s.storeB ∧ (absorbA s outs).wireBA = s.wireBA ∧
+    (absorbA s outs).callsB = s.callsB := by
+  unfold absorbA
+  induction outs generalizing s with
+  | nil => exact ⟨rfl, rfl, rfl, rfl⟩
+  | cons o outs ih =>
+    simp only [List.foldl_cons]
+    obtain ⟨h1, h2, h3, h4⟩ := ih (s := _)
+    rw [h1, h2, h3, h4]
+    cases o <;> exact ⟨rfl, rfl, rfl, rfl⟩
+
+theorem absorbB_a (outs : List Out) (s : State) : (absorbB s outs).a = s.a := by
+  unfold absorbB
+  induction outs generalizing s with
+  | nil => rfl
+  | cons o outs ih =>
+    simp only [List.foldl_cons]
+    rw [ih]
+    cases o <;> rfl
+
+/-- the node `a` after `drainA` -/
+def drainedA (a : Node.State) : Node.State :=
+  let d := Client.drain a.client a.now a.seq (Node.prefOf [])
+  let c : Client.State := { d.1 with newBlocks := [] }
+  { a with client := if d.2.2.any isSend then Client.sendingChanged c 1 (.sending 1) else c,
+           server := { a.server with outq := [] }, seq := d.2.1 }
+
+theorem step_drainA_def (s : State) :
+    step s .drainA =
+      absorbA { s with a := if (Node.step s.a (.drain [] [])).2.1.any isSend
+          then (Node.step (Node.step s.a (.drain [] [])).1 (.sending 1 (.sending 1))).1
+          else (Node.step s.a (.drain [] [])).1 } (Node.step s.a (.drain [] [])).2.1 := rfl
+
+theorem step_drainA (s : State) (h : SrvIdle s.a.server) :
+    step s .drainA =
+      absorbA { s with a := drainedA s.a } (Client.drain s.a.client s.a.now s.a.seq (Node.prefOf [])).2.2 := by
+  rw [step_drainA_def, nodeA_drain s.a h]
+  simp only [drainedA]
+  split <;> rfl
+
+theorem step_drainA_a (s : State) (h : SrvIdle s.a.server) : (step s .drainA).a = drainedA s.a := by
+  rw [step_drainA s h, absorbA_a]
+
+/-! ### Coherence of the history-extended run -/
+
+theorem srvIdle_outq {sv : Beetswap.Server.State} (h : SrvIdle sv) : SrvIdle { sv with outq := [] } :=
+  ⟨h.tasks, h.runq, h.evq, rfl, h.waiting⟩
+
+/-- the client operations `aOps` are what `step` does to `a`; the server half stays idle -/
+theorem aSys_step (s : State) (act : Act) (h : SrvIdle s.a.server) :
+    (Beetswap.Client.run (aSys s) (aOps s act)).1 = aSys (step s act) ∧
+    SrvIdle (step s act).a.server := by
+  cases act with
+  | get k => exact ⟨rfl, h⟩
+  | cancel q => exact ⟨rfl, h⟩
+  | refresh => exact ⟨rfl, h⟩
+  | drainA =>
+    have e : aSys (step s .drainA) =
+        { s := (drainedA s.a).client, now := (drainedA s.a).now, seq := (drainedA s.a).seq } := by
+      unfold aSys; rw [step_drainA_a s h]
+    rw [e, step_drainA_a s h]
+    refine ⟨?_, srvIdle_outq h⟩
+    simp only [aOps]
+    rw [nodeA_drain s.a h]
+    simp only [drainedA]
+    split <;> rfl
+  | drainB =>
+    have e : (step s .drainB).a = s.a := by
+      simp only [step]; rw [absorbB_a]
+    unfold aSys; rw [e]; exact ⟨rfl, h⟩
+  | lookupA n =>
+    simp only [aOps, step]
+    split
+    · have e := nodeA_complete s.a h n .miss
+      refine ⟨?_, ?_⟩
+      · unfold aSys; simp only [e]; rfl
+      · simp only [e]; exact h
+    · exact ⟨rfl, h⟩
+  | putDoneA n =>
+    simp only [aOps, step]
+    split
+    · have e := nodeA_complete s.a h n .putOk
+      refine ⟨?_, ?_⟩
+      · unfold aSys; simp only [e]; rfl
+      · simp only [e]; exact h
+    · exact ⟨rfl, h⟩
+  | lookupB n =>
+    simp only [aOps, step]
+    split <;> exact ⟨rfl, h⟩
+  | deliverAB =>
+    simp only [aOps, step]
+    cases hw : s.wireAB with
+    | nil => exact ⟨rfl, h⟩
+    | cons m rest => exact ⟨rfl, h⟩
+  | deliverBA =>
+    simp only [aOps, step]
+    cases hw : s.wireBA with
+    | nil => exact ⟨rfl, h⟩
+    | cons bs rest =>
+      by_cases hb : bs.isEmpty = true
+      · simp only [hb, if_true]
+        refine ⟨?_, ?_⟩ <;> simp [Node.step, hb, aSys, Beetswap.Client.run] <;> exact h
+      · simp only [hb, Bool.false_eq_true, if_false]
+        refine ⟨?_, ?_⟩ <;> simp [Node.step, hb, aSys, Beetswap.Client.run, Beetswap.Client.step] <;> exact h
 
 end Beetswap.Proofs.Net
